@@ -733,6 +733,7 @@ def gen_session(session_seed, pid, tier, profile=None):
         "seed": session_seed,
         "enc_sticky": True,
         "missing_sites": True,
+        "or_shadow": True,
         "programs": programs,
         "steps": steps,
         "replicas": replicas,
